@@ -466,27 +466,38 @@ def to_fit_range(
         raise ValueError("Fitting range should have 4 or 6 values")
 
 
+def _slice_length(data: slice) -> int | None:
+    """Get the number of elements selected by a slice (or None if it is not bounded)."""
+    if data.stop is None:
+        return None
+
+    return data.stop - (data.start or 0)
+
+
 def _check_out_fit_ranges(
     target_fit_range: FitRange2D | FitRange3D,
     out_fit_range: FitRange2D | FitRange3D,
 ):
+    def _different(first: slice, second: slice) -> bool:
+        len_first, len_second = _slice_length(first), _slice_length(second)
+        return len_first is not None and len_second is not None and len_first != len_second
+
     if (
         isinstance(target_fit_range, FitRange3D)
         and isinstance(out_fit_range, FitRange3D)
-        and target_fit_range.time.stop != out_fit_range.time.stop
+        and _different(target_fit_range.time, out_fit_range.time)
     ):
         raise ValueError(
             "Fitting ranges have different lengths in dimension 'readout time'"
         )
 
-    if target_fit_range.row.stop != out_fit_range.row.stop:
+    if _different(target_fit_range.row, out_fit_range.row):
         raise ValueError("Fitting ranges have different lengths in dimension 'y'")
 
-    if target_fit_range.col.stop != out_fit_range.col.stop:
+    if _different(target_fit_range.col, out_fit_range.col):
         raise ValueError("Fitting ranges have different lengths in dimension 'x'")
 
 
-# TODO: Refactor and add more unit tests. See #328
 def check_fit_ranges(
     target_fit_range: FitRange2D | FitRange3D | None,
     out_fit_range: FitRange2D | FitRange3D | None,
